@@ -300,7 +300,147 @@ func (x *Exec) chanRecv(s *State, p *PtrVal, et types.Type) (Value, *Term, bool)
 	return nil, nil, false
 }
 
+// doRecv executes a channel receive instruction (UnOp ARROW).
+func (x *Exec) doRecv(s *State, f *Frame, in *ssa.UnOp) bool {
+	p := x.val(s, f, in.X).(*PtrVal)
+	ct := in.X.Type().Underlying().(*types.Chan)
+	v, ok, done := x.chanRecv(s, p, ct.Elem())
+	if !done {
+		return false
+	}
+	if in.CommaOk {
+		x.set(f, in, &TupleVal{E: []Value{v, ok}})
+	} else {
+		x.set(f, in, v)
+	}
+	f.PC++
+	return true
+}
+
+// chanReady returns the condition under which a receive (dir recv) or send on the channel can
+// proceed without blocking.
+func (x *Exec) chanReady(s *State, p *PtrVal, recv bool) *Term {
+	tb := x.tb
+	if x.ptrIsNil(p).IsTrue() {
+		return tb.False
+	}
+	c, _ := x.chanOf(s, p)
+	if recv {
+		if c.Cap > 0 {
+			return tb.Or(tb.Not(tb.Eq(c.Len, tb.Int64(0))), c.Closed)
+		}
+		parked := tb.False
+		if c.Parked != nil {
+			parked = tb.And(c.ParkedG, tb.Not(c.Taken))
+		}
+		return tb.Or(parked, c.Closed)
+	}
+	if c.Cap > 0 {
+		return tb.Or(tb.ULt(c.Len, tb.Int64(int64(c.Cap))), c.Closed)
+	}
+	// unbuffered send inside select: ready only if closed (panics); rendez-vous with a waiting
+	// receiver is not modelled for select-sends
+	return c.Closed
+}
+
 func (x *Exec) doSelect(s *State, f *Frame, in *ssa.Select) bool {
-	x.fail("select not yet supported in %s", f.Info.Fn)
+	tb := x.tb
+	n := len(in.States)
+	ready := make([]*Term, n)
+	chans := make([]*PtrVal, n)
+	for i, st := range in.States {
+		chans[i] = x.val(s, f, st.Chan).(*PtrVal)
+		ready[i] = x.chanReady(s, chans[i], st.Dir == types.RecvOnly)
+	}
+	// result tuple layout: (index, recvOk, recv values...)
+	tt := in.Type().(*types.Tuple)
+	mkResult := func(idx int, okv *Term, fired int, val Value) Value {
+		tv := &TupleVal{E: make([]Value, tt.Len())}
+		tv.E[0] = tb.Int64(int64(idx))
+		tv.E[1] = okv
+		k := 2
+		for i, st := range in.States {
+			if st.Dir == types.RecvOnly {
+				if i == fired {
+					tv.E[k] = val
+				} else {
+					tv.E[k] = x.zero(tt.At(k).Type())
+				}
+				k++
+			}
+		}
+		return tv
+	}
+	// deterministic priority: the first ready case fires; when several are ready with certainty a
+	// fresh symbolic choice picks one (Go's select chooses pseudo-randomly)
+	var certain []int
+	for i := range ready {
+		if ready[i].IsTrue() {
+			certain = append(certain, i)
+		}
+	}
+	fire := func(ns *State, nf *Frame, i int) {
+		st := in.States[i]
+		if st.Dir == types.RecvOnly {
+			ct := st.Chan.Type().Underlying().(*types.Chan)
+			v, okv, done := x.chanRecv(ns, chans[i], ct.Elem())
+			if !done {
+				return
+			}
+			x.set(nf, in, mkResult(i, okv, i, v))
+			nf.PC++
+			x.push(ns)
+			return
+		}
+		v := x.val(ns, nf, st.Send)
+		if x.chanSend(ns, nf, chans[i], v, false) {
+			x.set(nf, in, mkResult(i, tb.False, -1, nil))
+			nf.PC++
+			x.push(ns)
+		}
+	}
+	if len(certain) > 1 {
+		ch := tb.Var(x.freshName("select"), 8)
+		for k, i := range certain {
+			ns := s.clone()
+			var c *Term
+			if k == len(certain)-1 {
+				c = tb.Not(tb.ULt(ch, tb.BV(8, uint64(k))))
+			} else {
+				c = tb.Eq(ch, tb.BV(8, uint64(k)))
+			}
+			if x.constrain(ns, c) {
+				fire(ns, ns.top(), i)
+			}
+		}
+		s.dead = true
+		return false
+	}
+	none := tb.True
+	for i := range ready {
+		c := tb.And(none, ready[i])
+		none = tb.And(none, tb.Not(ready[i]))
+		if c.IsFalse() {
+			continue
+		}
+		ns := s.clone()
+		if x.constrain(ns, c) {
+			fire(ns, ns.top(), i)
+		}
+	}
+	if !none.IsFalse() {
+		ns := s
+		if x.constrain(ns, none) {
+			if !in.Blocking {
+				x.set(f, in, mkResult(-1, tb.False, -1, nil))
+				f.PC++
+				x.push(ns)
+			} else {
+				x.block(ns, "select", 0)
+			}
+		}
+	} else {
+		s.dead = true
+	}
 	return false
 }
